@@ -24,6 +24,9 @@ type MemNet struct {
 	// Closed counts Close calls per local address (C15: released exactly once).
 	Closed map[string]int
 	Opened map[string]int
+
+	listeners map[string]*MemListener
+	streams   []*MemStream
 }
 
 // NewMemNet creates an empty network.
